@@ -45,7 +45,7 @@ class C20(Prop):
 
     def cases(self, rng, tier):
         out = []
-        n = 300 if tier == 'quick' else 8000
+        n = 600 if tier == 'quick' else 8000
         for _ in range(n):
             ver = rng.choice(['rx3', 'rx4'])
             k = rng.choice(['cstream', 'cstream', 'cstream', 'cresp', 'coneway', 'hstream', 'hstream', 'honeway', 'hresp', 'hchannel'])
